@@ -65,12 +65,33 @@ class _Sections(EventAnalysis):
             return state | {("dirty", norm(node)[:70])}
         return state
 
+    def _own_suspension(self, node) -> bool:
+        """the statement suspends by itself - not only by awaiting a helper whose body the engine has just run in place (the suspension points
+        of that body have been accounted for where they are; awaiting a coroutine that never suspends does not yield to the loop)"""
+        from .helpers import unknown_callee
+        eng = getattr(self, "engine", None)
+        stack = [node]
+        while stack:
+            n = stack.pop()
+            if isinstance(n, ast.Await) and isinstance(n.value, ast.Call) and eng is not None and eng._inline_depth < 4 \
+                    and unknown_callee(eng.prog, eng.fn, n.value) is not None:
+                stack += list(n.value.args) + [k.value for k in n.value.keywords]
+                continue
+            if isinstance(n, (ast.Await, ast.AsyncFor, ast.AsyncWith)):
+                return True
+            if isinstance(n, (ast.ListComp, ast.SetComp, ast.DictComp, ast.GeneratorExp)) and any(g.is_async for g in n.generators):
+                return True
+            for c in ast.iter_child_nodes(n):
+                if not isinstance(c, (ast.FunctionDef, ast.AsyncFunctionDef, ast.Lambda, ast.ClassDef)):
+                    stack.append(c)
+        return False
+
     def stmt(self, node, state):
         if _is_mark(node):
             return _clean(state) | {SEEN}
         if isinstance(node, (ast.FunctionDef, ast.AsyncFunctionDef, ast.ClassDef)):
             return state
-        if suspends(node):
+        if self._own_suspension(node):
             state = self._susp(node, state)
         if self._start is not None and self._start(node):
             state = _clean(state) | {SEEN}
@@ -134,6 +155,7 @@ def sections(prog: Program, fn: FuncInfo, start: Optional[Callable], targets: Ca
     body = _with_marks(fn.node.body, start) if start is not None else fn.node.body
     a = _Sections(start, async_items, on_raise, ignore)
     eng = Engine(prog, fn, a)
+    a.engine = eng
     eng.run(frozenset({SEEN}) if from_entry else frozenset(), body)
     res = {}
     for node, st in a.at.items():
